@@ -238,4 +238,115 @@ theorem C15_full_seq_invariant (calls : List Call) (dst : Ns) (c : Nat) (hd : Be
     · exact (hs k hk).2 i h' hsrc
     · have := (hs k hk).1 i hsrc; omega
 
+/-! ### rejection — and what a rejected call has already done to the destination -/
+
+/-- **no option left over** means: every key of the namespace options is one of the properties. -/
+theorem C15_full_options_accepted_iff (src self : Props) (opts : Opts) :
+    (overload src opts self).2 = [] ↔ ∀ kv ∈ opts, kv.1 < src.length :=
+  overload_left_nil src self opts
+
+/-- **include together with a non-empty exclude** is rejected by the guard of `_expose_ports`, before anything is touched:
+the destination is unchanged and nothing is allocated. -/
+theorem C15_full_guard_rejects_unchanged (src dst : Ns) (nsp : Option (List Name)) (ex inc : Option (List Rule))
+    (opts : Option Opts) (c : Nat) (he : truthy ex = true) (hi : inc.isSome = true) :
+    exposePorts src nsp ex inc opts dst c = (dst, c, .error .exclusive) := by
+  simp [exposePorts, he, hi]
+
+/-- **include together with exclude is always rejected** (also with an EMPTY exclude, which passes the guard of
+`_expose_ports` and is caught only by `absorb`, i.e. after `create_port_namespace` has run). -/
+theorem C15_full_include_exclude_rejected (src dst : Ns) (nsp : Option (List Name)) (ex inc : Option (List Rule))
+    (opts : Option Opts) (c : Nat) (he : ex.isSome = true) (hi : inc.isSome = true) :
+    ∃ e, (exposePorts src nsp ex inc opts dst c).2.2 = .error e := by
+  unfold exposePorts
+  split
+  · exact ⟨_, rfl⟩
+  · cases ht : targetOf (nsPath nsp) dst c with
+    | none =>
+      rcases exposeAt_no_target (k := absorbTop src ex inc (opts.getD [])) _ _ _ ht with h | h
+      · exact ⟨_, h⟩
+      · exact ⟨_, h⟩
+    | some tc =>
+      have := (exposeAt_target (k := absorbTop src ex inc (opts.getD [])) _ _ _ tc.1 tc.2 ht).1
+      rw [this, absorbTop_exclusive (by simp [he, hi])]
+      exact ⟨_, rfl⟩
+
+/-- **an unknown option is rejected — after the target's properties have been overloaded**: if some option is left over,
+the call raises, and the namespace at the requested path afterwards is the target (created if it was missing) with its
+properties ALREADY replaced by the source's / the valid overrides; its ports are as before. -/
+theorem C15_full_unknown_option_rejected (src dst : Ns) (nsp : Option (List Name)) (ex inc : Option (List Rule))
+    (opts : Option Opts) (c : Nat) (tgt0 : Ns) (c0 : Nat)
+    (hguard : (truthy ex && inc.isSome) = false) (hrules : (ex.isSome && inc.isSome) = false)
+    (ht : targetOf (nsPath nsp) dst c = some (tgt0, c0))
+    (hopts : (overload src.props (opts.getD []) tgt0.props).2 ≠ []) :
+    (exposePorts src nsp ex inc opts dst c).2.2 = .error .unknownOption ∧
+    nsAt (nsPath nsp) (exposePorts src nsp ex inc opts dst c).1
+      = some { tgt0 with props := (overload src.props (opts.getD []) tgt0.props).1 } := by
+  have htgt := exposeAt_target (k := absorbTop src ex inc (opts.getD [])) _ _ _ _ _ ht
+  constructor
+  · simp only [exposePorts, hguard, Bool.false_eq_true, if_false, htgt.1, absorbTop_unknown hrules hopts]
+  · simp only [exposePorts, hguard, Bool.false_eq_true, if_false, htgt.2, absorbTop_unknown hrules hopts]
+
+/-- **a rejected call adds and removes no port**: whatever the reason of the rejection, the leaf ports of the destination
+(all paths, in order) are the same as before.  What a rejected call MAY leave behind — the real code does — is new empty
+namespaces on the path to the target and, for an unknown option, overloaded properties of the target (the `example`s below);
+the frame `C15_full_frame`, `C15_full_destination_kept` and the independence theorems hold for rejected calls as well. -/
+theorem C15_full_rejected_adds_no_port (src dst : Ns) (nsp : Option (List Name)) (ex inc : Option (List Rule))
+    (opts : Option Opts) (c : Nat) (e : Err) (h : (exposePorts src nsp ex inc opts dst c).2.2 = .error e) :
+    leafPathsF (exposePorts src nsp ex inc opts dst c).1.ports = leafPathsF dst.ports := by
+  unfold exposePorts at h ⊢
+  split
+  · rfl
+  · rename_i hg
+    simp only [hg, if_false] at h
+    refine exposeAt_error_leafPaths ?_ _ _ _ e h
+    intro self c' e' he
+    rw [absorbTop_error_ports _ _ _ _ _ _ e' he]
+
+/-! ### non-vacuity: concrete trees -/
+
+/-- source: namespace 20 (help=9) with leaf `a`, nested namespace `ab` (valid_type=8, so `dynamic` is forced) holding `x`, `y`,
+and leaf `abc` -/
+def exSrc : Ns := ⟨20, [3, 2, 9, 1, 1, 0, 0],
+  [("a", .leaf 21 7), ("ab", .ns 22 [3, 2, 0, 1, 1, 8, 0] [("x", .leaf 23 7), ("y", .leaf 24 6)]), ("abc", .leaf 25 5)]⟩
+/-- destination: leaf `pre1`, namespace `tgt` that already holds `abc` (will be overwritten in place) and `own` (stays) -/
+def exDst : Ns := ⟨0, defaultProps,
+  [("pre1", .leaf 1 5), ("tgt", .ns 2 [3, 2, 4, 1, 1, 0, 0] [("abc", .leaf 3 6), ("own", .leaf 4 5)])]⟩
+
+-- the hypotheses of `C15_full_placement_selection` hold for: expose into the EXISTING namespace `tgt`, exclude `ab.y`,
+-- override `required` (index 4) with atom 2
+example : DK exSrc.ports ∧ WF (some [["ab", "y"]]) ∧ NoAnc (none : Option (List Rule)) ∧
+    targetOf (nsPath (some ["tgt"])) exDst 30 = some (⟨2, [3, 2, 4, 1, 1, 0, 0], [("abc", .leaf 3 6), ("own", .leaf 4 5)]⟩, 30) ∧
+    (overload exSrc.props [(4, 2)] [3, 2, 4, 1, 1, 0, 0]).2 = [] := by
+  refine ⟨by simp [DK, exSrc, keys], ?_, ?_, rfl, rfl⟩
+  · intro r hr; simp [rulesOf] at hr; subst hr; simp
+  · intro r hr; simp [rulesOf] at hr
+-- … and this is what the call does: `abc` overwritten in place by a fresh copy, `own` stays, `a` and `ab` (without `y`)
+-- appended; the target keeps its identity 2 and takes the source's properties with `required` overridden
+example : (exposePorts exSrc (some ["tgt"]) (some [["ab", "y"]]) none (some [(4, 2)]) exDst 30).1 =
+    ⟨0, defaultProps, [("pre1", .leaf 1 5), ("tgt", .ns 2 [3, 2, 9, 1, 2, 0, 0]
+      [("abc", .leaf 33 5), ("own", .leaf 4 5), ("a", .leaf 30 7), ("ab", .ns 31 [3, 1, 0, 1, 1, 8, 0] [("x", .leaf 32 7)])])]⟩ := by
+  simp [exposePorts, nsPath, exposeAt, absorbTop, overload, overloadFrom, setProp, optGet, optDel, absorbLoop, setPort, lookup,
+    truthy, mentions, touches, strip, exSrc, exDst, Ns.toObj, defaultProps, vtIdx, dynIdx, noneAtom, trueAtom]
+example : untouched (absorbedNames (some [["ab", "y"]]) none exSrc.ports) ["tgt"] ["tgt", "own"] = true ∧
+    untouched (absorbedNames (some [["ab", "y"]]) none exSrc.ports) ["tgt"] ["pre1"] = true ∧
+    untouched (absorbedNames (some [["ab", "y"]]) none exSrc.ports) ["tgt"] ["tgt", "abc"] = false := by
+  simp [untouched, absorbedNames, toPT, absorbPorts, exSrc, truthy, mentions, touches, strip]
+example : Below 30 exDst ∧ Below 30 exSrc ∧ ∀ i ∈ exDst.ids, i ∉ exSrc.ids := by
+  simp [Below, Ns.ids, ids, exDst, exSrc]
+
+-- the real code changes the destination before it raises, and so does the model:
+-- (1) `exclude=[]` with an include passes the guard of `_expose_ports`; `create_port_namespace('new.sub')` runs; `absorb` raises
+example : (exposePorts exSrc (some ["new", "sub"]) (some []) (some [["a"]]) none exDst 30).2.2 = .error .exclusive ∧
+    (exposePorts exSrc (some ["new", "sub"]) (some []) (some [["a"]]) none exDst 30).1.ports =
+      exDst.ports ++ [("new", .ns 30 defaultProps [("sub", .ns 31 defaultProps [])])] := ⟨rfl, rfl⟩
+-- (2) an unknown option (index 100): raised after the properties of the (existing) target have been overloaded
+example : (exposePorts exSrc (some ["tgt"]) none none (some [(100, 1), (2, 6)]) exDst 30).2.2 = .error .unknownOption ∧
+    nsAt ["tgt"] (exposePorts exSrc (some ["tgt"]) none none (some [(100, 1), (2, 6)]) exDst 30).1 =
+      some ⟨2, [3, 2, 6, 1, 1, 0, 0], [("abc", .leaf 3 6), ("own", .leaf 4 5)]⟩ := ⟨rfl, rfl⟩
+-- (3) `'new.'`: the recursive `create_port_namespace('')` raises after `new` has been created
+example : (exposePorts exSrc (some ["new", ""]) none none none exDst 30).2.2 = .error .emptyName ∧
+    keys (exposePorts exSrc (some ["new", ""]) none none none exDst 30).1.ports = ["pre1", "tgt", "new"] := ⟨rfl, rfl⟩
+-- (4) the override `dynamic=False` (index 1, atom 2) is lost when the source's `valid_type` is not `None`
+example : expectedProps [3, 2, 0, 1, 1, 8, 0] [(1, 2)] = [3, 1, 0, 1, 1, 8, 0] := by decide
+
 end Expose
